@@ -24,6 +24,9 @@ CHECKS = {
     "C09": ("model_checking", "BarState.tla (one action per mutator, phases live/term/exited) is model-checked by TLC (invariants and action "
             "properties of the documented rules); TLC emits its complete labelled transition relation and every transition (quick: a seeded "
             "sample) is replayed on a real bar as path+edge, the getters after every call being explained by a subset construction over the relation.", "8 C09"),
+    "C10": ("model_checking", "free-running histories (2-4 client goroutines on one bar while it is rendered, completes and exits) are checked "
+            "for linearizability against BarState by TLC (BarLin.tla searches linearization points; the bar's exit is a silent step); "
+            "the same programs run under the Go race detector, a report with library frames is a violation.", "8 C10"),
     "C11": ("model_checking", "BarState.tla invariants (exclusive, stable) by TLC; on real executions Obs.tla rules completed-and-aborted, "
             "completed-unstable, aborted-unstable, row-completed-and-aborted, row-terminal-state-changed, not-exactly-one-terminal-state.", "8 C11"),
     "C12": ("model_checking", "Obs.tla rules column-width (all widths handed back in one column equal the maximum needed), plain-width, "
@@ -43,6 +46,7 @@ CHECKS = {
 TECH0 = {p: "TLA+ trace validation (TLC on Obs.tla) of gate-scheduled executions of the real library; MPBCore.tla model checking"
         for p in CHECKS}
 TECH = dict(TECH0)
+TECH["C10"] = "TLC linearizability search (BarLin.tla over BarState.tla) on recorded histories; Go race detector on free-running workers"
 TECH["C09"] = "TLC model checking of BarState.tla + replay of its TLC-emitted transition relation on the real Bar"
 TECH["C11"] = "TLC model checking of BarState.tla + replay of its transition relation; TLA+ trace validation (Obs.tla) of gate-scheduled executions"
 
